@@ -23,6 +23,9 @@ _ALLOWED_FUNCTIONS: dict[str, Callable[..., sympy.Expr]] = {
     "min": sympy.Min,
     "Min": sympy.Min,
     "floor": sympy.floor,
+    "ceiling": sympy.ceiling,
+    "Abs": sympy.Abs,
+    "sign": sympy.sign,
     "sqrt": sympy.sqrt,
     "mod": sympy.Mod,
     "Mod": sympy.Mod,
